@@ -110,10 +110,30 @@ let run_case (toks : string list) (obs : (string, string list) Hashtbl.t) : stri
            let max = z_to_coq (ZZ.of_string (let m = kv "max" k in if m = "" then "1048576" else m)) in
            let stream = bytes_of_hex (kv "stream" k) in
            let mo = run_frames (nat_of_int 64) env max stream in
-           let mouts = List.map (fun o -> if List.exists has_container_key (outcome_vals o) then "unspec" else print_outcome o) mo in
+           (* requests for protocol "ty" are decoded by the implementation into TYPED arguments (structs, slices, raw values ...):
+              what value comes out, or whether the types fit at all, is go-codec's business and outside the model, which marks
+              them; the framing-level predicates below (consumption, chunking independence, allocation) still judge them *)
+           let typed (o : outcome) : bool =
+             let ty me = let s = string_of_bytes me in String.length s >= 3 && String.sub s 0 3 = "ty." in
+             (match o with OCall (_, me, _, _) | OCallC (_, _, me, _, _) | ONotify (me, _, _) -> ty me | _ -> false) in
+           let mouts0 = List.map (fun o -> if typed o then "typed" else if List.exists has_container_key (outcome_vals o) then "unspec" else print_outcome o) mo in
            let endk = (match kv "end" k with "" -> "eof" | e -> e) in
            let iouts = String.split_on_char '|' (kv "outs" ok) in
-           let icons = List.map int_of_string (split_on ',' (kv "consumed" ok)) in
+           let icons0 = List.map int_of_string (split_on ',' (kv "consumed" ok)) in
+           (* a typed request either is delivered (then the model's next outcomes are compared as usual) or its argument does not
+              fit the handler's type: a decoding error, which ends the stream there *)
+           let is_msg s = List.exists (fun p -> String.length s >= String.length p && String.sub s 0 (String.length p) = p) [ "call("; "callc("; "notify(" ] in
+           let rec reconcile ms is =
+             match ms, is with
+             | "typed" :: mr, i :: ir when is_msg i -> i :: reconcile mr ir
+             | "typed" :: _, [ "err:decode" ] -> [ "err:decode" ]
+             | "typed" :: mr, _ -> "unspec" :: mr
+             | m :: mr, _ :: ir -> m :: reconcile mr ir
+             | ms, [] -> ms
+             | [], _ -> [] in
+           let mouts = reconcile mouts0 iouts in
+           let stopped_at_typed = List.length mouts < List.length mouts0 in
+           let icons = icons0 in
            let slen = List.length stream in
            (* model consumption after each frame *)
            let rec mcons fuel s acc =
@@ -121,7 +141,8 @@ let run_case (toks : string list) (obs : (string, string list) Hashtbl.t) : stri
              let (o, r) = next_frame env max s in
              let c = slen - List.length r in
              if continues o then mcons (fuel - 1) r (c :: acc) else List.rev (c :: acc) in
-           let mc = mcons 64 stream [] in
+           let mc = (let l = mcons 64 stream [] in
+                     if stopped_at_typed then List.filteri (fun i _ -> i < List.length mouts) l else l) in
            let expect = kv "expect" k in
            (* allocation probe: never asked the connection for more than a constant plus the frame limit at once *)
            let maxask = try int_of_string (kv "maxask" ok) with _ -> 0 in
